@@ -305,6 +305,10 @@ func (namespaceManager *NamespaceManager) AssertPrefixMappingForExpansion(uriExp
 		state.ExpansionToPrefixMapping = namespaceManager.expansionToPrefixMapping
 		err := namespaceManager.store.StoreObject(NamespacesIndex, "namespacestate", state)
 		if err != nil {
+			// not persisted: take the pair back, or a later call hands it out from memory and it is gone
+			// (and the prefix given to another expansion) after the next restart
+			delete(namespaceManager.prefixToExpansionMapping, prefix)
+			delete(namespaceManager.expansionToPrefixMapping, uriExpansion)
 			return "", err
 		}
 	}
